@@ -13,11 +13,11 @@ struct Row {
 
 pub fn c18(ctx: &Ctx, subj: &dyn DynSubject, ty: &Ty, rep: &mut Report) {
     let strat = strategy_for(ctx, ty, GenCfg::default());
-    crate::runner::run_cases(ctx, subj, rep, strat, ctx.cases, &|v, log| {
+    crate::runner::run_cases_pre(ctx, subj, rep, &sweep_vals(ctx, ty), strat, ctx.cases, &|v, log| {
         self_check(subj, v)?;
         classify(ctx, ty, v, log);
         let (plain, _) = ser_bytes(subj, v)?;
-        let enc = model_enc(ctx, subj, ty, v)?;
+        let enc = model_enc_fit(ctx, subj, ty, v, plain.len(), log)?;
         let mut a: Vec<u8> = Vec::new();
         let schema = match guard(|| subj.ser_schema(v, &mut a)) {
             Err(p) => return Err(Fail::new(&format!("schema-panic:{}", panic_class(&p)), format!("serialize_with_schema panicked: {}", p))),
